@@ -1599,3 +1599,44 @@ Proof.
       * inversion Hj; subst. now apply Hg.
       * inversion Hj; subst. now apply IH.
 Qed.
+
+(* ------------------------------------------------------------------ reverse(I) = slice(I, _, _, -1) *)
+Lemma mk_reverse_ok u n : it_len R u = OVal n -> 0 <= n < box ->
+  mk_reverse R u = OVal (ISlice u (mkRng 0 n (-1))) /\ slice_ok (mkRng 0 n (-1)) n.
+Proof.
+  intros Hl Hn. split.
+  - unfold mk_reverse. rewrite (mk_slice_ok u n) by (auto; repeat constructor; unfold box; lia). reflexivity.
+  - unfold slice_ok, in_box, box in *. cbn. lia.
+Qed.
+
+Lemma slice_sel_reverse vs : slice_sel (mkRng 0 (zlen vs) (-1)) vs = rev vs.
+Proof.
+  unfold slice_sel, range_elems.
+  assert (Hc : range_count (mkRng 0 (zlen vs) (-1)) = zlen vs).
+  { unfold range_count, zlen. cbn [r_start r_stop r_step]. destruct (Z.leb_spec (Z.of_nat (length vs)) 0); [lia|].
+    change (Z.abs (-1)) with 1. rewrite Z.div_1_r. lia. }
+  rewrite Hc. unfold zlen. rewrite Nat2Z.id.
+  apply (nth_ext _ _ dv dv).
+  - rewrite !map_length, seq_length, rev_length. reflexivity.
+  - intros i Hi. rewrite !map_length, seq_length in Hi.
+    rewrite rev_nth by auto.
+    assert (nth_error (map (fun p => nth (Z.to_nat p) vs dv)
+              (map (fun i0 => range_val (mkRng 0 (Z.of_nat (length vs)) (-1)) (Z.of_nat i0)) (seq 0 (length vs)))) i
+            = Some (nth (length vs - S i) vs dv)) as E.
+    { rewrite !nth_error_map, seq_nth_error by auto. cbn [option_map Nat.add]. do 2 f_equal.
+      unfold range_val. cbn [r_start r_stop r_step]. change (0 <? -1) with false. cbv iota. lia. }
+    now rewrite (nth_error_nth _ _ _ E).
+Qed.
+
+Lemma reverse_summary f u cvs : wb f u cvs -> it_len R u = OVal (zlen cvs) -> zlen cvs < box ->
+  exists s, mk_reverse R u = OVal s /\ iterates f s (rev (map snd cvs)).
+Proof.
+  intros H Hl Hn. assert (0 <= zlen cvs < box) as Hn' by (unfold zlen in *; lia).
+  destruct (mk_reverse_ok u _ Hl Hn') as [Hm Hok]. eexists. split; [exact Hm|].
+  pose proof (wb_iterates _ _ _ (wb_slice f u cvs _ H Hl Hok)) as Hi.
+  rewrite slice_chain_snd in Hi by auto.
+  assert (zlen cvs = zlen (map snd cvs)) as Hz by (unfold zlen; now rewrite map_length).
+  assert (slice_sel (mkRng 0 (zlen cvs) (-1)) (map snd cvs) = rev (map snd cvs)) as Hs
+    by (rewrite Hz; apply slice_sel_reverse).
+  rewrite Hs in Hi. exact Hi.
+Qed.
